@@ -253,6 +253,12 @@ impl DateTime {
                 "RFC 3339 string cannot be shorter than 20 chars".to_string(),
             ));
         }
+        // The fields are taken from fixed byte positions, which is only valid for ASCII strings
+        if !string.is_ascii() {
+            return Err(create_invalid_format(
+                "RFC 3339 string can only contain ASCII characters".to_string(),
+            ));
+        }
 
         let year = string[0..4].parse::<i32>().map_err(|_| {
             create_invalid_format("Failed parsing year from RFC 3339 string".to_string())
